@@ -5,6 +5,7 @@ import (
 
 	"github.com/grafana/cog/internal/ast"
 	"github.com/grafana/cog/internal/languages"
+	"github.com/grafana/cog/internal/veneers/builder"
 	"github.com/grafana/cog/internal/veneers/option"
 	"github.com/grafana/cog/internal/veneers/rewrite"
 	v "github.com/grafana/cog/internal/zzverif"
@@ -70,10 +71,26 @@ func c14OneHot(a languages.ArgumentMapping) int {
 func VerifC14ConverterMapping() {
 	schemas := c17Schemas()
 	builders := (&ast.BuilderGenerator{}).FromAST(schemas)
-	// optionally one option rule first (the shapes converters meet in practice)
-	if rk := v.Choose(7); rk > 0 {
+	// optionally veneers first (the shapes converters meet in practice): one option rule on every
+	// option; or duplicate-then-unfold (constant "shortcut" options followed by an ordinary setter
+	// for the same field); or two options promoted to the constructor
+	var optRules []option.RewriteRule
+	var bldRules []builder.RewriteRule
+	switch rk := v.Choose(9); rk {
+	case 0:
+	case 7:
+		optRules = []option.RewriteRule{
+			option.Duplicate(option.EveryOption(), "dup"),
+			option.UnfoldBoolean(option.ByName("p", "Foo", "a", "tags", "b", "B"), option.BooleanUnfold{OptionTrue: "on", OptionFalse: "off"}),
+		}
+	case 8:
+		bldRules = []builder.RewriteRule{builder.PromoteOptionsToConstructor(builder.ByObjectName("p", "Foo"), []string{v.Str("promote1", "a", "tags"), v.Str("promote2", "b", "B")})}
+	default:
 		kind := []int{orArrayToAppend, orMapToIndex, orUnfoldBoolean, orStructFieldsAsArguments, orStructFieldsAsOptions, orDuplicate}[rk-1]
-		rw := rewrite.NewRewrite([]rewrite.LanguageRules{{Language: rewrite.AllLanguages, OptionRules: []option.RewriteRule{c17OptionRule(kind, option.EveryOption())}}}, rewrite.Config{})
+		optRules = []option.RewriteRule{c17OptionRule(kind, option.EveryOption())}
+	}
+	if len(optRules) != 0 || len(bldRules) != 0 {
+		rw := rewrite.NewRewrite([]rewrite.LanguageRules{{Language: rewrite.AllLanguages, OptionRules: optRules, BuilderRules: bldRules}}, rewrite.Config{})
 		out, err := rw.ApplyTo(schemas, builders, "go")
 		if err != nil {
 			return
@@ -146,6 +163,17 @@ func VerifC14ConverterMapping() {
 			}
 		}
 		v.Assert(len(conv.ConstructorArgs) == nctor, "C14: constructor arguments are not mapped exactly once")
+		// the i-th mapped constructor argument must read the field the i-th declared constructor argument is assigned to
+		if len(conv.ConstructorArgs) == nctor && nctor == len(b.Constructor.Args) {
+			for i, arg := range b.Constructor.Args {
+				for _, as := range b.Constructor.Assignments {
+					if as.Value.Argument != nil && as.Value.Argument.Name == arg.Name {
+						got := conv.ConstructorArgs[i].ValuePath
+						v.Assert(len(got) == len(as.Path)+1 && v.DeepEqualNilEmpty(got[1:], as.Path), "C14: constructor arguments are mapped in a different order than the constructor declares them")
+					}
+				}
+			}
+		}
 		v.Assert(conv.Package == b.Package && conv.BuilderName == b.Name && conv.Input.TypeRef == b.For.SelfRef, "C14: the converter targets the wrong builder or object")
 	}
 }
